@@ -129,6 +129,10 @@ def run(rep, tier):
     cfg = "C16_LinArith_small.cfg" if quick else "C16_LinArith_deep.cfg"
     cls = ("all multisets of 1..2 factoids 0 <= a*x1 + b*x2 + c, a,b in -2..2, c in %s; all multisets of 3 factoids with %s"
            % (("-2..2", "a in {-2,0,2}, b in {-1,1}, c in -1..1") if quick else ("-3..3", "a,b in -2..2, c in -1..1")))
+    cls += ("; all 3-row multisets with a,b,c in -1..1 in which one linear form is bounded twice with different constants" if quick else "")
+    cls += (" -- these repeated-form systems are also emitted as ORDERED systems (all 6 assertion orders: weak-then-tight, "
+            "tight-then-weak, third row before/between/after; coefficients %s) and replayed in that order through Simplex, "
+            "SimplexMacro and branch_and_bound" % ("-1..1" if quick else "-2..2"))
     rep.rule = ("TLC explores " + cls + " (every system a state; reference Fourier-Motzkin / real-shadow+GCD / dark-shadow "
                 "elimination in every variable order, invariants judged by brute force over integer boxes and the rational grid "
                 "k/d, d in {1,2,3,4,5,6,8}, |k| <= 12). Every system is replayed through omega.solve_matrix (both row orders) and "
@@ -149,7 +153,9 @@ def run(rep, tier):
     # 1. the input class as vectors (EmitSpec: same module and constants as the exploration below, ~4 s)
     r0 = model_check("C16_LinArith", ecfg, wd=wd / "emit", workers=1, env={"VECTOR_FILE": vec}, timeout=3600)
     require(r0.ok and vec.exists(), "C16_LinArith (EmitSpec) did not emit vectors")
-    rep.notes["vectors"] = sum(1 for _ in open(vec))
+    fams = [json.loads(ln).get("fam", "v") for ln in open(vec) if ln.strip()]
+    rep.notes["vectors"] = fams.count("v")
+    rep.notes["ordered_repeat_vectors"] = fams.count("p")
     marker.write_text("ok")
     ex = ThreadPoolExecutor(max_workers=3)
     # 2. the driver (one process: importing the int/real theories costs ~17 s; random systems, then the vectors) runs
@@ -219,6 +225,9 @@ def run(rep, tier):
     replayed = {json.dumps(e["sys"]) for e in res["vectors"][0] if e["proc"] == "omega" and e["tag"] == "v"}
     require(len(replayed) == rep.notes["vectors"] and tr["vectors"]["events"] >= 3.5 * rep.notes["vectors"],
             "C16: not every emitted system was replayed (%d of %d)" % (len(replayed), rep.notes["vectors"]))
+    ordered = {json.dumps(e["sys"]) for e in res["vectors"][0] if e["proc"] == "simplex" and e["tag"] == "pnz"}
+    require(len(ordered) == rep.notes["ordered_repeat_vectors"] and len(ordered) >= 3000,
+            "C16: not every ordered repeated-form system was replayed (%d of %d)" % (len(ordered), rep.notes["ordered_repeat_vectors"]))
     require(tr["vectors"]["nontrivial"] >= 0.6 * tr["vectors"]["events"] and tr["random"]["nontrivial"] >= 0.5 * tr["random"]["events"],
             "C16: too few examined events (vacuity guard)")
     for proc, k, mn in (("omega", "UNSAT", 100), ("omega", "SAT", 1000), ("simplex", "UNSAT", 100), ("simplex", "SAT", 1000),
